@@ -508,7 +508,8 @@ def fam_conv_chain(rng, big=False):
             oc = rng.choice([1, 3, 8, 16, 24, 32, 48, 64] if big else [1, 2, 3, 5, 8, 16, 17, 32, 33])
             x = conv2d(net, rng, x, oc, (kh, kw), (sh, sw), (dh, dw), padding, act)
         elif kind == "conv1x1":
-            x = conv2d(net, rng, x, rng.choice([4, 8, 16, 32, 64]), (1, 1), (1, 1), (1, 1), "SAME", act)
+            s1 = rng.choice([1, 1, 2, 2, 3])
+            x = conv2d(net, rng, x, rng.choice([4, 8, 16, 32, 64]), (1, 1), (s1, s1), (1, 1), "SAME", act)
         elif kind == "dw":
             x = depthwise(net, rng, x, (kh, kw), (sh, sw), (dh, dw), padding, act)
         else:
@@ -663,7 +664,7 @@ def fam_mixed_cpu(rng):
 
 
 UNSUPPORTED_KINDS = ["rank5", "rank0", "batch", "big_stride", "big_kernel", "int32_add", "float", "dyn_weights",
-                     "big_dim", "no_quant", "dilation", "int16_pool", "bool", "per_axis_fc"]
+                     "big_dim", "no_quant", "dilation", "int16_pool", "bool", "per_axis_fc", "pool_stride4", "dw_stride4"]
 
 
 def fam_unsupported(rng, kind=None):
@@ -684,6 +685,12 @@ def fam_unsupported(rng, kind=None):
     elif kind == "big_stride":
         x = _inp(net, rng, [1, 20, 20, 4], dt)
         y = conv2d(net, rng, x, 8, (3, 3), (rng.choice([4, 5]), rng.choice([1, 4])), (1, 1), "SAME")
+    elif kind == "pool_stride4":
+        x = _inp(net, rng, [1, 16, 16, 8], rng.choice(["int8", "uint8"]))
+        y = pool(net, rng, x, rng.choice(["MAX_POOL_2D", "AVERAGE_POOL_2D"]), (4, 4), (4, 4), "VALID")
+    elif kind == "dw_stride4":
+        x = _inp(net, rng, [1, 16, 16, 8], dt)
+        y = depthwise(net, rng, x, (3, 3), (4, 4), (1, 1), "SAME")
     elif kind == "big_kernel":
         x = _inp(net, rng, [1, 70, 70, 2], dt)
         y = conv2d(net, rng, x, 2, (rng.choice([65, 8]), rng.choice([65, 9])), (1, 1), (1, 1), "SAME")
@@ -724,9 +731,28 @@ def fam_unsupported(rng, kind=None):
         wt = net.tensor([4, 32], "int8", [0.01, 0.02, 0.03, 0.04], [0, 0, 0, 0], _wdata(rng, [4, 32]), qdim=0)
         y = net.tensor([1, 4], dt, 0.1, 0)
         net.op("FULLY_CONNECTED", [x, wt, None], [y], dict(FusedActivationFunction=0))
-    # follow by a supported op sometimes, so CPU and NPU operators are mixed
-    if len(y.shape) == 4 and y.dtype in ("int8", "uint8") and y.scale is not None and rng.random() < 0.5:
-        y = conv2d(net, rng, y, 4, (1, 1))
+    # follow by supported operators most of the time, so CPU and NPU operators are mixed and the rewrites that
+    # look at a CPU-resident producer (activation fusing, LUT conversion, reshape/concat bypass) are exercised
+    if len(y.shape) == 4 and y.dtype in ("int8", "uint8") and y.scale is not None and rng.random() < 0.8:
+        nxt = rng.choice(["conv", "logistic", "tanh", "relu", "lrelu", "hswish", "add_self", "maxpool"])
+        if nxt == "conv":
+            y = conv2d(net, rng, y, 4, (1, 1))
+        elif nxt == "logistic":
+            y = unary(net, rng, "LOGISTIC", y)
+        elif nxt == "tanh":
+            y = unary(net, rng, "TANH", y)
+        elif nxt == "relu":
+            y = unary(net, rng, rng.choice(["RELU", "RELU6"]), y)
+        elif nxt == "lrelu":
+            y = unary(net, rng, "LEAKY_RELU", y, dict(Alpha=float(np.float32(0.1))))
+        elif nxt == "hswish" and y.dtype == "int8":
+            y = unary(net, rng, "HARD_SWISH", y)
+        elif nxt == "add_self":
+            y = elementwise(net, rng, "ADD", y, y)
+        elif min(y.shape[1:3]) >= 2:
+            y = pool(net, rng, y, "MAX_POOL_2D", (2, 2), (2, 2), "VALID")
+        if rng.random() < 0.4:
+            y = cpu_only(net, rng, y, "CUSTOM")
     net.output(y)
     return net
 
